@@ -148,7 +148,7 @@ Definition sum_range (a b : Z) : Z := sum_range_nat a (Z.to_nat (b - a)).
 (* twice the closed form (symbolic_math._sum_range; the start == 0 shortcut is the same formula) *)
 Definition sum_range_closed2 (a b : Z) : Z := ((b - 1) * b - (a - 1) * a).
 
-(* after the repair a46a07b: bounds that are literals and make the range empty give 0 *)
+(* after the repair c4152d3: bounds that are literals and make the range empty give 0 *)
 Definition sum_range_out2 (literal : bool) (a b : Z) : Z :=
   if literal && (b <? a) then 0 else sum_range_closed2 a b.
 
